@@ -23,6 +23,12 @@ fn asm_block_programs() -> Vec<String> {
         "jmp E\njmp E\njmp E\n#assert E == 3\nE:\n",
         "jmp E\nnop\nnop\nnop\n#assert E == 5\nE:\n",
         "x = E * 2\njmp x\nE:\n",
+        // label-free programs that can finish in a single pass, with assertions that hold / do not hold
+        "ld 5\n#assert $ == 2\n",
+        "ld 5\n#assert $ == 7\n",
+        "ld 5\nld 6\nld 7\n#assert $ <= 4\n#d8 0xff\n",
+        "#d8 1, 2\n#assert 1 + 1 == 3\n",
+        "#d8 1, 2\n#assert 1 + 1 == 2\n",
     ];
     bodies.iter().map(|b| format!("{}{}", rules, b)).collect()
 }
@@ -81,7 +87,7 @@ pub fn judge(src: &str, family: &str, budgets: &[usize], l: &mut Local) {
 pub fn run(ctx: &Ctx) -> Report {
     let mut rep = Report::new(
         "model_checking",
-        "every program of the ten C02 value-dependent families (all item sequences up to a length), the skeleton grid (chains 0..12 with/without oscillator), asm-block macros with local labels and #assert programs, each assembled under a row of budgets; success at N must recur identically (bits, symbols) at every larger budget, reported passes <= budget, failures clean. Non-trivial = program whose outcome differs between at least two budgets; states = distinct (program, outcome row), transitions = passes executed.",
+        "every program of the twelve C02 value-dependent families (all item sequences up to a length), the skeleton grid (chains 0..12 with/without oscillator), asm-block macros with local labels and #assert programs, each assembled under a row of budgets; success at N must recur identically (bits, symbols) at every larger budget, reported passes <= budget, failures clean. Non-trivial = program whose outcome differs between at least two budgets; states = distinct (program, outcome row), transitions = passes executed.",
     );
     let budgets: Vec<usize> = if ctx.thorough { (1..=31).collect() } else { vec![1, 2, 3, 4, 5, 10, 11, 30] };
     for f in c02::families() {
@@ -97,6 +103,8 @@ pub fn run(ctx: &Ctx) -> Report {
     let all: Vec<usize> = (1..=31).collect();
     let grid: Vec<(usize, bool)> = (0..=12).flat_map(|n| [(n, false), (n, true)]).collect();
     rep.absorb(par_cases(&grid, |(n, osc), l| judge(&c02::chain_prog(*n, *osc).render(), "skeleton-chain", &all, l)));
+    let lb: Vec<String> = c02::late_bool_progs().iter().map(|p| p.render()).collect();
+    rep.absorb(par_cases(&lb, |s, l| judge(s, "late-boolean-directed", &all, l)));
     let asmp = asm_block_programs();
     rep.absorb(par_cases(&asmp, |s, l| judge(s, "asm-block-and-assert", &all, l)));
     rep.extra("budgets", json!(budgets));
